@@ -130,14 +130,9 @@ func H_TeardownReady() {
 	}
 }
 
-// actorOps: the number of concurrent actor operations.  The thorough tier is the union of two
-// explorations: 2 operations under the larger delay bound (registry: 2), and 3 operations under the
-// quick delay bound (1).
+// actorOps: the number of concurrent actor operations (both tiers; the thorough tier deepens the delay
+// bound: measured, 3 operations under delay bound 1 alone are ~900 000 paths per harness).
 func actorOps() int {
-	if verif.Tier() == "thorough" && verif.Choose("moreOps", 2) == 1 {
-		verif.SetPreemptions(1)
-		return 3
-	}
 	return 2
 }
 
